@@ -162,10 +162,15 @@ func (p *parser) alias() ast.Expression {
 
 	// generic aliases may not be called with typeSensitive = false
 	if funcAlias, ok := mostFitting.alias.(*ast.FuncAlias); ok && ast.IsGeneric(funcAlias.Func) {
+		// the candidate tried last may have given up before it consumed a token
+		end := p.previous()
+		if p.cur <= start {
+			end = &p.tokens[start]
+		}
 		p.errVal(ddperror.Error{
 			Code:                 ddperror.SEM_ERROR_INSTANTIATING_GENERIC_FUNCTION,
 			Level:                ddperror.LEVEL_ERROR,
-			Range:                token.NewRange(&p.tokens[start], p.previous()),
+			Range:                token.NewRange(&p.tokens[start], end),
 			Msg:                  fmt.Sprintf("Es gab Fehler beim Instanziieren der generischen Funktion '%s'", funcAlias.Func.Name()),
 			File:                 p.module.FileName,
 			WrappedGenericErrors: mostFitting.errs,
